@@ -2,14 +2,11 @@
 # usage: seed_detect.sh <patch.diff> <prop> [more props...]  -- applies the patch to /repo, runs the checks, reverts
 P=$1; shift
 cd /repo || exit 9
-if ! git apply --check "$P" 2>/dev/null; then
-  if ! git apply --3way --check "$P" 2>/dev/null; then echo "PATCH-DOES-NOT-APPLY $P"; exit 8; fi
-  git apply --3way "$P" 2>/dev/null
-else
-  git apply "$P"
-fi
+if [ -n "$(git status --porcelain)" ]; then echo "REPO-NOT-CLEAN"; exit 7; fi
+if ! git apply --check "$P" 2>/dev/null; then echo "PATCH-DOES-NOT-APPLY $P"; exit 8; fi
+git apply "$P"
 for prop in "$@"; do
   out=$(cd /verif && /venv/bin/python run.py $prop --tier quick 2>&1); rc=$?
   echo "== $prop exit=$rc"; echo "$out" | grep -E "VIOLATION|ANALYSIS-ERROR|^  prettyprinter" | cut -c1-400 | head -8
 done
-git -C /repo checkout -- . ; git -C /repo reset -q
+git -C /repo checkout -- . 
